@@ -65,7 +65,13 @@ class Drillhole(Points):
         self._locations = None
         self._default_collocation_distance = 1e-2
 
+        # an explicit end of hole wins over the one derived by the surveys setter
+        end_of_hole = kwargs.pop("end_of_hole", None)
+
         super().__init__(object_type, **kwargs)
+
+        if end_of_hole is not None:
+            self.end_of_hole = end_of_hole
 
     @classmethod
     def default_type_uid(cls) -> uuid.UUID:
